@@ -9,6 +9,7 @@ import (
 
 	"github.com/glebziz/fs_db/verifh/checks"
 	"github.com/glebziz/fs_db/verifh/conc"
+	"github.com/glebziz/fs_db/verifh/crash"
 	"github.com/glebziz/fs_db/verifh/dbh"
 	"github.com/glebziz/fs_db/verifh/enum"
 	"github.com/glebziz/fs_db/verifh/seq"
@@ -39,6 +40,16 @@ func main() {
 		litmus.DebugRace()
 	case "worker":
 		conc.WorkerMain()
+	case "seqlevel":
+		// debugging aid: verifh seqlevel <family> <params> <depth>
+		var d int
+		fmt.Sscan(os.Args[4], &d)
+		fps := map[uint64]struct{}{}
+		lr := seq.RunLevel(os.Args[2], os.Args[3], d, time.Now().Add(time.Hour), fps)
+		fmt.Printf("histories %d steps %d reads %d mismatching %d seconds %.1f complete %v\n", lr.Stats.Histories, lr.Stats.Steps, lr.Stats.Obs, lr.Stats.ViolCount, lr.Seconds, lr.Complete)
+		for _, v := range lr.Stats.Viol {
+			fmt.Println("  ", v.Sig, v.History, v.What)
+		}
 	case "enumcase":
 		// debugging aid: verifh enumcase <family> <params> <from> <to>
 		defer dbh.Cleanup()
@@ -52,6 +63,8 @@ func main() {
 				fmt.Printf("case %d: %s\n   %s\n", i, o.Mismatch.Sig, o.Mismatch.What)
 			}
 		}
+	case "crashchild":
+		crash.ChildMain(os.Args[2])
 	case "enumworker":
 		defer dbh.Cleanup()
 		enum.WorkerMain(os.Args[2])
